@@ -44,7 +44,8 @@ Inductive bexp :=
   | BExists (i : nat) | BEmpty (i : nat) | BBare (i : nat)
   | BIn (s : sexp) (opts : list ustring) | BStarts (s : sexp) (p : ustring)
   | BNot (b : bexp) | BAnd (a b : bexp) | BOr (a b : bexp) | BYes | BNo
-  | BVarSet (x : Z).                         (* a bare variable as a condition: it exists, i.e. holds something other than None (0, False and "" exist) *)
+  | BVarSet (x : Z)                          (* a bare variable as a condition: it exists, i.e. holds something other than None (0, False and "" exist) *)
+  | BAllCells (nh : nat).                    (* all(): the line has exactly as many cells as there are headers (nh) and none of them is blank *)
 
 (** bookkeeping functions; [nm] is the id of the variable named by the function's name qualifier; a header argument is a column *)
 Inductive agg :=
@@ -204,6 +205,8 @@ Section Eval.
 
   Definition text_of (s : cst) (l : line ustring) (e : nexp) : ustring := str_val (nvalue s l e).
 
+  Definition is_blank_text (t : ustring) : bool := match strip t with [] => true | _ => false end.
+
   Fixpoint beval (s : cst) (l : line ustring) (b : bexp) : bool :=
     match b with
     | BCmp o a c =>
@@ -228,6 +231,7 @@ Section Eval.
     | BYes => true
     | BNo => false
     | BVarSet v => match lookup v (vars (x mx s)) with Some VNone | None => false | Some _ => true end
+    | BAllCells nh => (length l =? nh)%nat && forallb (fun t => negb (is_blank_text t)) l
     end.
 
   Definition with_mx (s : cst) (m : mx) : cst :=
@@ -245,7 +249,6 @@ Section Eval.
   Definition tally_text (l : line ustring) (i : nat) : ustring := match cell l i with Some t => t | None => [78; 111; 110; 101] end.
   Definition py_true : ustring := [84; 114; 117; 101].
   Definition py_false : ustring := [70; 97; 108; 115; 101].
-  Definition is_blank_text (t : ustring) : bool := match strip t with [] => true | _ => false end.
 
   Definition do_agg (s : cst) (l : line ustring) (g : agg) : cst * bool :=
     let m := x mx s in
